@@ -229,10 +229,14 @@ def run_verus_unit(unit, keep_dir=None, extra_args=None, rlimit=None, mutate=Non
                 sorted(set(f["function"] for f in res.failures if f["function"] in lost)), lost))
             res.failures = [f for f in res.failures if f["function"] not in lost]
             only_rlimit = False
-        if hard and not (only_rlimit and res.failures):
+        frontend = [h for h in hard if not ("rlimit" in h.lower() or "resource limit" in h.lower() or h.startswith("proof hint anchor lost"))]
+        if hard and (frontend or not res.failures):
+            # the verifier's front end rejected the unit, or nothing attributable failed: undecided
             res.status = "undecided"
             res.reason = "verifier could not decide: " + " | ".join(hard)[:2000]
         elif res.failures or res.errors:
+            if hard:
+                res.reason = "(also undecided parts: %s)" % " | ".join(hard)[:600]
             res.status = "failed"
             if not res.failures:
                 res.status = "undecided"
